@@ -31,7 +31,7 @@ def pose(p):
         d.update(q=vec(p.orientation.q), pq=vec(p.parentOrientation.q),
                  ypr=[fl(p.yaw), fl(p.pitch), fl(p.roll)], heading=fl(p.heading))
     if isinstance(p, Object):
-        d.update(dims=[fl(p.width), fl(p.length), fl(p.height)], ct=fl(p.contactTolerance),
+        d.update(dims=[fl(p.width), fl(p.length), fl(p.height)], ct=fl(p.contactTolerance), base=vec(p.baseOffset),
                  corners=[vec(c) for c in p.corners])
     return d
 
